@@ -49,6 +49,30 @@ CLAIMED = {
          "Bounded symbolic check (orders 1..3 quick, up to 4-5 thorough; matrices symbolic, exactly sized blocks): structural clauses only - permutation validity and parity vs. sign, failure on vanishing / non-positive / NaN pivots, strictly positive Cholesky diagonal on success, plu_P/P_ exact, solve/inverse with identity factors return exactly P b / P, memory safety and frame of every routine incl. the strided in-place variants, sgndet sign logic. Residual/accuracy clauses are not applicable (IEEE product/quotient chains).",
          "trusted: cbmc 6.11.0 (+cvc5), sqrt by assumed contract; orders bounded; numeric clauses not applicable",
          "bounded symbolic execution of the real factorization code with CBMC against structural postconditions", "5/C08"),
+ "C01": ("other",
+         "The real a_avl_insert / a_avl_remove / a_avl_search run by CBMC on EVERY valid AVL tree of depth <= 3 (<= 7 nodes, one unit per tree shape; keys, inserted key position and removed node symbolic; depth 4 = up to 15 nodes in the thorough tier): afterwards a recursive checker over the actual links shows search order, parent links pointing back, |height difference| <= 1 and stored balance factor == difference; node count and lookups give the element set; duplicate insertion returns the resident node and changes no link; lookup finds exactly the present keys. Packed parent-word accessors proved for all pointers/factors. Bounded in tree depth, hence level 'other'.",
+         "trusted: cbmc 6.11.0 + CaDiCaL; whole-tree units use the unpacked node layout (A_SIZE_POINTER=1), packed layout: accessor proofs + thorough-tier depth-2 units; histories by induction over operations on paper; trees deeper than the bound not covered",
+         "bounded exhaustive symbolic execution with CBMC of the real tree code against the full representation invariant", "5/C01"),
+ "C02": ("other",
+         "The real a_rbt_insert / a_rbt_remove / a_rbt_search run by CBMC on EVERY valid red-black tree of depth <= 3 (one unit per shape; colours, keys, inserted key position and removed node symbolic; depth 4 in the thorough tier): afterwards a recursive checker shows search order, parent links, black root, no red node with a red child, equal black heights; node count and lookups give the element set; duplicates and lookup as for C01. Packed parent/colour word accessors proved. Bounded in tree depth, hence level 'other'.",
+         "trusted: cbmc 6.11.0 + CaDiCaL; unpacked node layout in the whole-tree units; fix-up cases that need more than 7 nodes before the operation (e.g. sibling case 3 on the second loop iteration) are only reached by the thorough tier (depth 4)",
+         "bounded exhaustive symbolic execution with CBMC of the real tree code against the full representation invariant", "5/C02"),
+ "C03": ("other",
+         "All six iteration protocols through the real foreach macros and tear-down on every tree shape of depth <= 3 (symbolic shape, both tree types; depth 4 thorough), compared with recursive reference traversals; next/prev inverse at every node; tear-down from the root and from every start node: every element exactly once, children before parents, tree empty; interrupted after any number of steps the rest is still linked and reachable.",
+         "trusted: cbmc 6.11.0 + CaDiCaL; bounded depth; unpacked node layout",
+         "bounded symbolic execution with CBMC of the real iterator code against reference traversals", "5/C03"),
+ "C10": ("proof",
+         "Loop-free Hoare triples over IEEE doubles on the library's own fallback bodies (all A_HAVE_C* switches off; cvc5 / SAT per unit): field arithmetic equal to the textbook formulas (same-expression congruence, exact-domain and power-of-two magnitude units for inv/div), sqrt/atan/asin/acos branch, sign and range clauses off the cuts, real-argument variants' branch constants, composition skeletons (asinh/acosh/atanh/sec/csc/cot/log2/log10/logb/pow) as call protocols with the inner function replaced by a contract, constants bit-exact (pi, 1/ln2, 1/ln10). Accuracy against a high-precision oracle is not applicable.",
+         "trusted: cbmc 6.11.0, cvc5; libm real functions and a_real_hypot/atan2/log1p/acosh/atanh as assumed contracts (uninterpreted functions with ISO C sign/range facts); accuracy clauses not applicable; real parts of asin/acos off the axis only as range/quadrant",
+         "contract-based deductive verification with CBMC: Hoare triples, assumed libm contracts, contract replacement for compositions", "5/C10"),
+ "C11": ("proof",
+         "Fallback bodies (A_HAVE_* off): a_real_atan2 axis/quadrant logic for all inputs (exactly +-pi/2 on the y axis), asinh/acosh/atanh branch structure, special values and odd symmetry, expm1/log1p structure, norm2/norm3 sign/NaN/zero facts, coordinate conversion call protocols (P, cvc5); bounded units: norm/norm_ memory safety and value facts, sum/mean/dot equal the left fold on an exact domain, copy/swap/fill/zero/push/roll helpers exact permutation semantics with ghost witness and guard cells for lengths incl. 0 and 1 and strides 1..3. Accuracy/overflow-freedom clauses are not applicable.",
+         "trusted: cbmc 6.11.0, cvc5; libm by assumed contracts; lengths bounded in the B units; accuracy not applicable",
+         "contract-based deductive verification with CBMC: Hoare triples with assumed libm contracts; bounded stand-ins for the array helpers", "5/C11"),
+ "C16": ("proof",
+         "a_tf_set_num/set_den/init/zero for every order; a_lpf_iter/a_hpf_iter equal the documented update for all doubles (same-expression congruence), pass-through/hold cases, zero/init (P). Bounded units (orders <= 4): a_tf_iter delay lines are the new sample followed by the old entries (ghost witness, exactly sized blocks), returned y is what is pushed and equals sum num*input - sum den*output on the exact domain in the code's accumulation order, two/three steps from zero state and a_tf_zero replay; a_real_push_fore/back incl. n = 0, 1. LTI, range for general alpha, settling and the gen() range are not applicable.",
+         "trusted: cbmc 6.11.0, cvc5; element-wise memmove stub in the equation units (shift itself proved against cbmc's model); orders bounded; rounding-dependent clauses not applicable",
+         "contract-based deductive verification with CBMC: Hoare triples; bounded stand-ins for the order-dependent loops", "5/C16"),
 }
 
 PENDING_REASON = "check not built yet in this session (work in progress; see DESIGN.md section 5 for the planned contracts)"
